@@ -23,7 +23,7 @@ from pydiverse.common import (
     String,
 )
 from pydiverse.transform._internal.backend.table_impl import TableImpl
-from pydiverse.transform._internal.backend.targets import Polars, SqlAlchemy, Target
+from pydiverse.transform._internal.backend.targets import Pandas, Polars, SqlAlchemy, Target
 from pydiverse.transform._internal.ops import ops
 from pydiverse.transform._internal.ops.op import Ftype
 from pydiverse.transform._internal.pipe.table import Cache
@@ -165,7 +165,7 @@ class SqlImpl(TableImpl):
         sel = cls.build_select(nd, final_select=final_select)
         engine = get_engine(nd)
 
-        if isinstance(target, Polars):
+        if isinstance(target, Polars | Pandas):
             with engine.connect() as conn:
                 df = pl.read_database(
                     sel.compile(engine, compile_kwargs={"literal_binds": True}),
@@ -187,6 +187,10 @@ class SqlImpl(TableImpl):
                 # (for example IBM DB2 returns lowercase columns as uppercase column
                 # names)
                 df.columns = [c.name for c in sel.selected_columns]
+                if isinstance(target, Pandas):
+                    return df.to_pandas(use_pyarrow_extension_array=True)
+                if target.lazy:
+                    df = df.lazy()
                 df.name = nd.name
                 return df
 
